@@ -325,4 +325,13 @@ Right(c) == (Shape(c[1], c[2])[2] - Crpix(c[1], c[2])[1]) * Scale(c[1])
 EncodingDisjoint ==
     \A c1, c2 \in Slots : c1 # c2 => (Right(c1) + 8 <= Left(c2) \/ Right(c2) + 8 <= Left(c1))
 EncodingKeys == \A k1, k2 \in AllKeys : k1 # k2 => Crval(k1)[1] # Crval(k2)[1] /\ Crval(k1)[2] # Crval(k2)[2]
+\* the second encoding: the value tells every (file, HDU) apart (EncodingInjective); two different (file, HDU) are at least
+\* 8 finest pixels apart along x whatever their keys; two keys of one HDU are at least 8 finest pixels apart along y
+FlatLeft(c) == (1 - FlatCrpix(c[1], c[2])[1]) * Scale(c[1])
+FlatRight(c) == (FlatShape[2] - FlatCrpix(c[1], c[2])[1]) * Scale(c[1])
+FlatEncoding ==
+    /\ \A c1, c2 \in Slots : c1 # c2 => (FlatRight(c1) + 8 <= FlatLeft(c2) \/ FlatRight(c2) + 8 <= FlatLeft(c1))
+    /\ \A p \in DOMAIN FileSeq : KeyRise >= FlatShape[1] * Scale(p) + 8
+    /\ \A c \in Slots : FlatCrpix(c[1], c[2])[1] * Scale(c[1]) = SkyX(c[1], c[2])
+    /\ \A k1, k2 \in AllKeys : k1 # k2 => NearCrval(k1) # NearCrval(k2)
 =============================================================================
